@@ -55,6 +55,7 @@ MUTATIONS = [
     ("revert-merge-map-order", ["C12"], revert("independent of map iteration order")),
     ("revert-type-and-extension", ["C07"], revert("do not treat the definition of a type as an extension")),
     ("revert-printer-sorts-input", ["C13"], revert("do not reorder the type definitions")),
+    ("revert-wildcard-slice-aliasing", ["C11", "C06"], revert("do not share wildcard slices")),
     # --- deliberate breakages from DESIGN.md §5
     ("dependant-nodes-first-wins", ["C04"], edit(WG, "nodeWeights[key2] = int(math.Max(float64(nodeWeights[key2]), float64(value2)))", "_ = value2")),
     ("prepass-ignores-computed-edges", ["C05"], edit(WG, "if edge.edgeType != RewriteEdge && edge.edgeType != ComputedEdge {", "if edge.edgeType != RewriteEdge {")),
